@@ -192,8 +192,13 @@ QuantIdem == phase # "build" => Quant(doc) = doc
 
 (* ---- output for the replayer ------------------------------------------------------- *)
 View == vars
-\* simulation: one line per behaviour that reaches ExportParse
-EmitHist == (act'.op = "ExportParse") => PrintT(ToJson([tag |-> "HIST", h |-> hist, opts |-> opts]))
+\* simulation: one line per behaviour that reaches ExportParse.  The property is evaluated at that step only
+\* (in simulation TLC evaluates state invariants on every candidate successor, which is the whole cost):
+\* the exported document loses nothing and is a fixed point.
+AtExport == /\ Assert(NoLoss, "NoLoss violated at ExportParse")
+            /\ Assert(Expected(O2, doc') = doc', "FixedPoint violated at ExportParse")
+            /\ Assert(Quant(doc') = doc', "QuantIdem violated at ExportParse")
+EmitHist == (act'.op = "ExportParse") => (AtExport /\ PrintT(ToJson([tag |-> "HIST", h |-> hist, opts |-> opts])))
 \* exhaustive: every transition once
 Emit == PrintT(ToJson([tag |-> "EDGE", s |-> doc, a |-> act', t |-> doc']))
 =============================================================================
